@@ -35,9 +35,9 @@ GAP_PLAIN = {'sp': ' ', 'none': '', 'tab': '\t', 'nbsp': ' ',
 GAP_BREAK = {'lf': '\n', 'cr': '\r', 'crlf': '\r\n', 'ls': '\u2028',
              'ps': '\u2029', 'cmtlf': ' /*\n*/ ', 'line': ' //c\n',
              'lfcmt': '\n/*c*/ ', 'cmt_lf': ' /*c*/\n', 'lflf': '\n\n',
-             'ffcmt': '/*\x0c\x85*/\n', 'vtline': '//\x0b\x1c\n',
-             'cmt3': ' /* a\n b\r\n c */ ', 'cmt2lf': '/*\n\n*/',
-             'cmtlsps': '/*\u2028\u2029*/ '}
+             'ffcmt': ' /*\x0c\x85*/\n', 'vtline': ' //\x0b\x1c\n',
+             'cmt3': ' /* a\n b\r\n c */ ', 'cmt2lf': ' /*\n\n*/ ',
+             'cmtlsps': ' /*\u2028\u2029*/ '}
 
 
 def spell(tok, k, pools):
@@ -91,7 +91,7 @@ def layout_variant(sent, rng, break_p=0.25):
     brk = list(GAP_BREAK.values())
     for t in sent.tokens:
         if t.idx == 0:
-            gaps[0] = rng.choice(['', '\n', ' ', '/* x\n y */', '\r\n'])
+            gaps[0] = rng.choice(['', '\n', ' ', '/* x\n y */ ', '\r\n'])
         elif t.nl:
             gaps[t.idx] = rng.choice(brk)
         elif rng.random() < break_p and not getattr(t, 'nobreak', False):
